@@ -2,7 +2,13 @@
 //! `Files::sort`; the answer lists the five buckets and the six accessors with paths relative to
 //! the scratch root.
 //!   input   (node ...)  with node = (file "name") | (special "name") | (dir "name" node ...)
-//!           the top-level nodes are the arguments, in order (a node may be listed twice)
+//!                                 | (link "name" file|special|dangling|loop) | (link "name" (dir node ...))
+//!           the top-level nodes are the arguments, in order (a node may be listed twice).
+//!           Links: `file` -> a regular file outside the tree (directly or through a second link),
+//!           `special` -> /dev/null, `dangling` -> a missing path or the link itself (ELOOP),
+//!           `loop` -> "." (the directory that contains the link; not realisable as an argument),
+//!           `(dir ..)` -> a directory outside the tree with these entries.
+//!   output  (files ...) or, when Files::sort returns a walkdir error, (err (io|loop "path"))
 use super::Op;
 use crate::{
     rng::Rng,
@@ -21,7 +27,7 @@ const FILE_NAMES: &[&str] = &[
 ];
 const DIR_NAMES: &[&str] = &["d", "D", "d.lp", "e.spec", "x y", "a", "zz", ".hidden", "\u{e9}"];
 
-fn gen_nodes(rng: &mut Rng, depth: usize, max: usize) -> Vec<Sexp> {
+fn gen_nodes(rng: &mut Rng, depth: usize, max: usize, root: bool) -> Vec<Sexp> {
     let n = rng.below(max + 1);
     let mut used: Vec<String> = vec![];
     let mut out = vec![];
@@ -33,20 +39,33 @@ fn gen_nodes(rng: &mut Rng, depth: usize, max: usize) -> Vec<Sexp> {
         }
         used.push(name.to_string());
         if dir {
-            let mut v = vec![s(name)];
-            v.extend(gen_nodes(rng, depth - 1, 5));
-            out.push(tagged("dir", v));
-        } else if rng.chance(6) {
-            out.push(tagged("special", vec![s(name)]));
+            let mut v = vec![];
+            v.extend(gen_nodes(rng, depth - 1, 5, false));
+            if rng.chance(25) {
+                // a symbolic link to a directory
+                v.insert(0, a("dir"));
+                out.push(tagged("link", vec![s(name), l(v)]));
+            } else {
+                v.insert(0, s(name));
+                out.push(tagged("dir", v));
+            }
         } else {
-            out.push(tagged("file", vec![s(name)]));
+            let k = rng.below(200);
+            out.push(match k {
+                0..=9 => tagged("special", vec![s(name)]),
+                10..=39 => tagged("link", vec![s(name), a("file")]),
+                40..=45 => tagged("link", vec![s(name), a("special")]),
+                46..=48 => tagged("link", vec![s(name), a("dangling")]),
+                49..=51 if !root => tagged("link", vec![s(name), a("loop")]),
+                _ => tagged("file", vec![s(name)]),
+            });
         }
     }
     out
 }
 
 fn gen_case(rng: &mut Rng) -> Sexp {
-    let mut nodes = gen_nodes(rng, 2, 7);
+    let mut nodes = gen_nodes(rng, 2, 7, true);
     // shuffle = argument order independent of names; sometimes pass one argument twice
     for i in (1..nodes.len()).rev() {
         let j = rng.below(i + 1);
@@ -59,23 +78,92 @@ fn gen_case(rng: &mut Rng) -> Sexp {
     l(nodes)
 }
 
-fn build(root: &Path, node: &Sexp) -> Result<PathBuf, String> {
+fn atom(e: &Sexp) -> Option<&str> {
+    match e {
+        Sexp::A(x) => Some(x.as_str()),
+        _ => None,
+    }
+}
+
+/// where the targets of links live: a sibling of the scratch root (never walked)
+struct Store {
+    dir: PathBuf,
+    next: usize,
+}
+impl Store {
+    fn fresh(&mut self) -> Result<PathBuf, String> {
+        std::fs::create_dir_all(&self.dir).map_err(|e| e.to_string())?;
+        self.next += 1;
+        Ok(self.dir.join(format!("t{}", self.next)))
+    }
+}
+
+fn build(root: &Path, node: &Sexp, store: &mut Store, top: bool) -> Result<PathBuf, String> {
+    use std::os::unix::fs::symlink;
     let (tag, rest) = node.tag().ok_or("node expected")?;
     let name = rest.first().ok_or("name expected")?.as_str()?;
     let path = root.join(name);
+    let exists = std::fs::symlink_metadata(&path).is_ok(); // an argument listed twice
     match tag {
         "file" => {
             std::fs::write(&path, b"").map_err(|e| e.to_string())?;
         }
         "special" => {
-            if std::fs::symlink_metadata(&path).is_err() {
-                std::os::unix::fs::symlink("/dev/null", &path).map_err(|e| e.to_string())?;
+            // a socket (std only); where the path is too long for sun_path, a link to a device
+            if !exists && std::os::unix::net::UnixListener::bind(&path).is_err() {
+                symlink("/dev/null", &path).map_err(|e| e.to_string())?;
             }
         }
         "dir" => {
             std::fs::create_dir_all(&path).map_err(|e| e.to_string())?;
             for c in &rest[1..] {
-                build(&path, c)?;
+                build(&path, c, store, false)?;
+            }
+        }
+        "link" if exists => {}
+        "link" => {
+            let target = rest.get(1).ok_or("link target expected")?;
+            match atom(target) {
+                Some("file") => {
+                    let t = store.fresh()?;
+                    std::fs::write(&t, b"").map_err(|e| e.to_string())?;
+                    if store.next % 2 == 0 {
+                        // through a second link
+                        let t2 = store.fresh()?;
+                        symlink(&t, &t2).map_err(|e| e.to_string())?;
+                        symlink(&t2, &path).map_err(|e| e.to_string())?;
+                    } else {
+                        symlink(&t, &path).map_err(|e| e.to_string())?;
+                    }
+                }
+                Some("special") => symlink("/dev/null", &path).map_err(|e| e.to_string())?,
+                Some("dangling") => {
+                    let t = store.fresh()?;
+                    if store.next % 2 == 0 {
+                        symlink(&t, &path).map_err(|e| e.to_string())?; // missing target
+                    } else {
+                        symlink(name, &path).map_err(|e| e.to_string())?; // the link itself: ELOOP
+                    }
+                }
+                Some("loop") => {
+                    if top {
+                        return Err("a loop link as an argument is not realisable (walkdir's ancestor stack is empty)".into());
+                    }
+                    symlink(".", &path).map_err(|e| e.to_string())?;
+                }
+                Some(t) => return Err(format!("unknown link target {t}")),
+                None => {
+                    let (ttag, cs) = target.tag().ok_or("link target expected")?;
+                    if ttag != "dir" {
+                        return Err(format!("unknown link target ({ttag} ..)"));
+                    }
+                    let t = store.fresh()?;
+                    std::fs::create_dir_all(&t).map_err(|e| e.to_string())?;
+                    for c in cs {
+                        build(&t, c, store, false)?;
+                    }
+                    symlink(&t, &path).map_err(|e| e.to_string())?;
+                }
             }
         }
         t => return Err(format!("unknown node tag {t}")),
@@ -101,14 +189,25 @@ fn opt(root: &Path, p: Option<&PathBuf>) -> Sexp {
 fn run(e: &Sexp) -> Result<Sexp, String> {
     let base = Path::new(concat!(env!("CARGO_MANIFEST_DIR"), "/../work/scratch"));
     let root = base.join(format!("files-{}-{}", std::process::id(), COUNTER.fetch_add(1, Ordering::SeqCst)));
+    let mut store = Store { dir: base.join(format!("{}-store", root.file_name().unwrap().to_string_lossy())), next: 0 };
     let _ = std::fs::remove_dir_all(&root);
+    let _ = std::fs::remove_dir_all(&store.dir);
     std::fs::create_dir_all(&root).map_err(|e| e.to_string())?;
+    let store_dir = store.dir.clone();
     let result = (|| {
         let mut args = vec![];
         for n in e.as_list()? {
-            args.push(build(&root, n)?);
+            args.push(build(&root, n, &mut store, true)?);
         }
-        let files = Files::sort(args).map_err(|e| format!("walkdir: {e}"))?;
+        let files = match Files::sort(args) {
+            Ok(f) => f,
+            Err(e) => {
+                // walkdir::Error: the path it names and whether it is a loop
+                let p = e.path().ok_or_else(|| format!("walkdir: {e}"))?;
+                let kind = if e.loop_ancestor().is_some() { "loop" } else { "io" };
+                return Ok(tagged("err", vec![tagged(kind, vec![rel(&root, p)])]));
+            }
+        };
         let list = |v: &Vec<PathBuf>| l(v.iter().map(|p| rel(&root, p)).collect());
         let spec = match files.specification() {
             None => l(vec![a("none")]),
@@ -134,6 +233,7 @@ fn run(e: &Sexp) -> Result<Sexp, String> {
         ))
     })();
     let _ = std::fs::remove_dir_all(&root);
+    let _ = std::fs::remove_dir_all(&store_dir);
     result
 }
 
